@@ -285,6 +285,28 @@ def l2_case(ctx, backend, tls_max, client_cert, stall_flight, stall_off, request
         close_loop(loop)
 
 
+def l2_coalesced(ctx, backend, tls_max, client_cert, request, variant):
+    from nauyaca.server.protocol import GeminiServerProtocol
+
+    from vf import tlsbench
+    from vf.gen import certs
+
+    log = []
+    loop = new_loop()
+    try:
+        h = SpyHandler({"mode": "sync", "outcome": "value", "status": 20, "meta": "text/gemini", "body": "ok\n"}, log, loop)
+        ident = certs.identity("c15-client", "ec") if client_cert else None
+        bench = tlsbench.Sandwich(loop, lambda: GeminiServerProtocol(h), backend=backend, log=log, client_identity=ident, tls_max=tls_max)
+        pieces = request if variant == "coalesced" else [request[:9], request[9:]]
+        if not bench.handshake(coalesce_with=pieces):
+            return {"error": str(bench.error)}
+        end = loop.run_until(HORIZON)
+        bench.drain()
+        return {"tcp_closing": bench.tcp.closing, "tcp_close_time": bench.tcp.close_time, "plain": bytes(bench.client_plain), "handler": len(h.calls), "end": end}
+    finally:
+        close_loop(loop)
+
+
 def run_l2(ctx):
     from nauyaca.server import protocol as P
 
@@ -335,6 +357,25 @@ def run_l2(ctx):
                         continue
                     ctx.count("monitor", "l2_request_stalls")
                     judge_l2(ctx, obs, backend, tls_max, client_cert, "request-record", "req", o, T, expect_40=True)
+                # complete request in the same TCP read as the client's Finished, then silence: it must be
+                # answered (a request that is complete never times out), whatever the TLS layer buffers
+                for variant in ("coalesced", "coalesced-two-records"):
+                    k += 1
+                    if not ctx.mine(k):
+                        continue
+                    obs = l2_coalesced(ctx, backend, tls_max, client_cert, req, variant)
+                    if "error" in obs:
+                        ctx.undecided("L2:" + obs["error"])
+                        continue
+                    ctx.count("monitor", "l2_request_stalls")
+                    wit = {"level": "L2", "backend": backend, "tls": tls_max, "client_cert": client_cert, "variant": variant, "observed": obs}
+                    if not obs["tcp_closing"]:
+                        ctx.violation(f"held-open:phase=coalesced-request:backend={backend}", "complete request coalesced with the handshake end was never answered and the connection stays open", wit)
+                    elif obs["plain"] != b"20 text/gemini\r\nok\n":
+                        ctx.violation(f"timeout-after-complete:phase=coalesced-request:backend={backend}", f"complete request coalesced with the handshake end answered {obs['plain'][:40]!r} at t={obs['tcp_close_time']}", wit)
+                    else:
+                        ctx.count("outcome", f"L2:{backend}:coalesced-answered")
+                    ctx.case(("L2", backend, tls_max, client_cert, variant, obs["plain"][:2]), True, sample=wit)
                 # stall with a partial plaintext request (complete record, incomplete line)
                 for part in (b"g", b"gemini://example.org/x", b"gemini://example.org/x\r"):
                     k += 1
